@@ -145,6 +145,20 @@ Theorem C20_partition_nonneg : forall pf feed top0 bot0 ids K topc botc strict p
 Proof. exact partition_nonneg_lemma. Qed.
 Print Assumptions C20_partition_nonneg.
 
+(* stronger: stale flows of the equilibrium and forced chemicals in the outlets (left by an earlier call) are
+   harmless because every normal return overwrites them -- in all three branches phi <= 0, 0 < phi < 1, phi >= 1;
+   only chemicals partition never writes must not exceed the feed in the bottom outlet *)
+Theorem C20_partition_nonneg_stale : forall pf feed top0 bot0 ids K topc botc strict phi,
+  length feed = length bot0 -> length top0 = length bot0 -> nonneg feed ->
+  length K = length ids ->
+  (forall i, In i ids \/ In i topc \/ In i botc -> (i < length bot0)%nat) ->
+  (forall i, ~ In i ids -> ~ In i topc -> ~ In i botc -> 0 <= nthq bot0 i <= nthq feed i) ->
+  let r := partition pf feed top0 bot0 ids K topc botc strict in
+  p_phi r = Ok phi ->
+  forall i, 0 <= nthq (p_top r) i /\ 0 <= nthq (p_bot r) i <= nthq feed i.
+Proof. exact partition_nonneg_stale_lemma. Qed.
+Print Assumptions C20_partition_nonneg_stale.
+
 (* 0 < phi < 1, K >= 0: nothing is clipped and (1 - phi) top_k = phi K_k bottom_k for every equilibrium chemical *)
 Theorem C20_partition_K_cross : forall pf feed top0 bot0 ids K topc botc strict phi,
   length feed = length bot0 -> nonneg feed ->
@@ -336,6 +350,12 @@ Proof.
   split; [repeat constructor; simpl; intuition lia|].
   split; intros i; do 6 (destruct i as [|i]; [qc|]); qc.
 Qed.
+
+(* stale bottom from an earlier call and phi >= 1: everything goes to the top, nothing is negative *)
+Example C20_ex_partition_stale :
+  let r := partition (fun _ _ _ _ => 1) [4; 2; 1] [7; 7; 7] [1; 4; 0] [0; 1]%nat [2; 1 # 2] [] [] false in
+  p_phi r = Ok 1 /\ vapproxb (p_top r) [4; 2; 1] = true /\ vapproxb (p_bot r) [0; 0; 0] = true.
+Proof. qc. Qed.
 
 (* a Rachford-Rice root with forced chemicals: one equilibrium chemical with K = 1, Fa = Fb = 1, phi = 1/2 *)
 Example C20_ex_root_forced :
